@@ -553,6 +553,12 @@ def finish(pid, prop, tier, seed, t0, evidence_path, obligations, discharged, br
             'bounded_exhaustive_part': prop.get('exhaustive_note', ''),
             'broken_obligations': [list(b) for b in broken],
             'notes': notes,
+            # translation validation: how many programs were run on the same cases (API families of the crate, each
+            # compared with the model of its byte family; plus the second build when there is one) and how many
+            # case-by-case comparisons were made
+            'programs': len(set((c.split('\t')[0].split('.')[-1] if '.' in c.split('\t')[0] else c.split('\t')[0]) for c, _, _ in recs)) + (1 if stats.get('second_build_cases') else 0) if recs else 0,
+            'disagreements_checked': n + stats.get('second_build_cases', 0),
+            'explanation': prop.get('level_text', ''),
         },
         'assumptions': prop.get('assumptions', []) + props.COMMON_ASSUMPTIONS,
         'wall_s': round(time.time() - t0, 2),
